@@ -152,8 +152,18 @@ def _structure(stmts, res_name):
     return out
 
 
+def _kwarg_only_forwarded(fn):
+    """the **kwargs parameter is used only as `**kwargs` in calls (forwarded as a whole, never read or changed)"""
+    kw = fn.args.kwarg.arg
+    uses = [x for x in ast.walk(fn) if isinstance(x, ast.Name) and x.id == kw]
+    fwd = [k.value for c in ast.walk(fn) if isinstance(c, ast.Call) for k in c.keywords if k.arg is None and isinstance(k.value, ast.Name) and k.value.id == kw]
+    return len(uses) == len(fwd) and all(isinstance(u.ctx, ast.Load) for u in uses)
+
+
 def _basic_ok(fn: ast.FunctionDef):
-    if fn.decorator_list or fn.args.vararg or fn.args.kwarg:
+    if fn.decorator_list or fn.args.vararg:
+        return False
+    if fn.args.kwarg and not _kwarg_only_forwarded(fn):
         return False
     for x in ast.walk(fn):
         if x is not fn and isinstance(x, (ast.FunctionDef, ast.AsyncFunctionDef, ast.ClassDef)):
@@ -194,6 +204,43 @@ def _names_in(fn):
             for a in x.names:
                 out.add((a.asname or a.name).split(".")[0])
     return out
+
+
+class _Fold(ast.NodeTransformer):
+    """constant folding after literal arguments were substituted: f"_{'x'}" -> "_x", "a" + "b" -> "ab", getattr(o, "name") -> o.name,
+    `setattr(o, "name", v)` as a statement -> `o.name = v`"""
+    def visit_JoinedStr(self, n):
+        self.generic_visit(n)
+        parts = []
+        for v in n.values:
+            if isinstance(v, ast.Constant) and isinstance(v.value, str):
+                parts.append(v.value)
+            elif isinstance(v, ast.FormattedValue) and v.conversion == -1 and v.format_spec is None and isinstance(v.value, ast.Constant) and isinstance(v.value.value, str):
+                parts.append(v.value.value)
+            else:
+                return n
+        return ast.Constant(value="".join(parts))
+
+    def visit_BinOp(self, n):
+        self.generic_visit(n)
+        if isinstance(n.op, ast.Add) and isinstance(n.left, ast.Constant) and isinstance(n.right, ast.Constant) and isinstance(n.left.value, str) and isinstance(n.right.value, str):
+            return ast.Constant(value=n.left.value + n.right.value)
+        return n
+
+    def visit_Call(self, n):
+        self.generic_visit(n)
+        if isinstance(n.func, ast.Name) and n.func.id == "getattr" and len(n.args) == 2 and not n.keywords and isinstance(n.args[1], ast.Constant) \
+                and isinstance(n.args[1].value, str) and n.args[1].value.isidentifier():
+            return ast.Attribute(value=n.args[0], attr=n.args[1].value, ctx=ast.Load())
+        return n
+
+    def visit_Expr(self, n):
+        self.generic_visit(n)
+        c = n.value
+        if isinstance(c, ast.Call) and isinstance(c.func, ast.Name) and c.func.id == "setattr" and len(c.args) == 3 and not c.keywords \
+                and isinstance(c.args[1], ast.Constant) and isinstance(c.args[1].value, str) and c.args[1].value.isidentifier():
+            return ast.Assign(targets=[ast.Attribute(value=c.args[0], attr=c.args[1].value, ctx=ast.Store())], value=c.args[2], lineno=getattr(n, "lineno", 0))
+        return n
 
 
 class _Subst(ast.NodeTransformer):
@@ -321,6 +368,12 @@ class Inliner:
                 return q
         return None
 
+    @staticmethod
+    def _only_starred(fn, p):
+        uses = [x for x in ast.walk(fn) if isinstance(x, ast.Name) and x.id == p]
+        starred = [a for c in ast.walk(fn) if isinstance(c, ast.Call) for a in c.args if isinstance(a, ast.Starred) and isinstance(a.value, ast.Name) and a.value.id == p]
+        return bool(uses) and len(uses) == len(starred)
+
     # ------------------------------------------------------------- one call site
     def _expand(self, call, q, caller_fn, mode, res_name, self_name="self"):
         """-> statement list replacing the call; mode in {'return', 'value', 'effect'}"""
@@ -343,9 +396,15 @@ class Inliner:
         for p, a in zip(pos_rest, args):
             binding[p] = a
             order.append(p)
+        extra_kw = []
         for k in call.keywords:
-            if k.arg in binding or k.arg not in pos_rest + kwonly:
+            if k.arg in binding:
                 raise NotInlinable("bad keyword")
+            if k.arg not in pos_rest + kwonly:
+                if fn.args.kwarg is None or not isinstance(k.value, (ast.Name, ast.Constant)):
+                    raise NotInlinable("bad keyword")
+                extra_kw.append(k)          # goes into **kwargs, which the helper only forwards: it is written out at the forwarding call
+                continue
             binding[k.arg] = k.value
             order.append(k.arg)
         defaults = dict(zip(pos[len(pos) - len(fn.args.defaults):], fn.args.defaults))
@@ -369,10 +428,14 @@ class Inliner:
             if "self" in stored:
                 raise NotInlinable("method rebinds self")
             ren["self"] = self_name
+        star_sub = {}
         for p in order:
             a = binding[p]
             if p not in stored and isinstance(a, (ast.Constant, ast.Name)):
                 sub[p] = a
+                ren.pop(p, None)
+            elif p not in stored and isinstance(a, ast.Tuple) and all(isinstance(e, (ast.Name, ast.Constant)) for e in a.elts) and self._only_starred(fn, p):
+                star_sub[p] = a.elts        # `args=(x, y)` used only as `f(*args)`: the call becomes `f(x, y)`
                 ren.pop(p, None)
             else:
                 pre.append(ast.Assign(targets=[ast.Name(id=ren.get(p, p), ctx=ast.Store())], value=a, lineno=call.lineno))
@@ -386,7 +449,28 @@ class Inliner:
         else:
             new = _structure(body, "__inl_result__" if mode == "value" else None)
         mod_ = ast.Module(body=new, type_ignores=[])
+        if fn.args.kwarg is not None or star_sub:
+            kwname = fn.args.kwarg.arg if fn.args.kwarg is not None else None
+            for c in ast.walk(mod_):
+                if isinstance(c, ast.Call):
+                    if kwname is not None:
+                        kws = []
+                        for k in c.keywords:
+                            if k.arg is None and isinstance(k.value, ast.Name) and k.value.id == kwname:
+                                kws += [ast.keyword(arg=e.arg, value=copy.deepcopy(e.value)) for e in extra_kw]
+                            else:
+                                kws.append(k)
+                        c.keywords = kws
+                    if star_sub:
+                        args_ = []
+                        for a_ in c.args:
+                            if isinstance(a_, ast.Starred) and isinstance(a_.value, ast.Name) and a_.value.id in star_sub:
+                                args_ += [copy.deepcopy(e) for e in star_sub[a_.value.id]]
+                            else:
+                                args_.append(a_)
+                        c.args = args_
         _Subst(ren, sub).visit(mod_)
+        _Fold().visit(mod_)
         if mode == "value":
             # the caller's target is not a local of the helper: it is put in after the helper's locals were renamed
             for x in ast.walk(mod_):
@@ -778,6 +862,96 @@ class Inliner:
                 continue
             self._process(q, fn, owner)
         return self.inlined
+
+
+# ------------------------------------------------------------------ property factories
+def expand_property_factories(tree, rel, inv):
+    """`name = factory("name", "doc")` in a class body, with `factory` a new module-level function of the shape
+           [local = <call-free expression of the parameters>]* ; def fget(self): .. ; [def fset(self, v): ..] ; return property(fget[, fset][, doc=..])
+    -> the explicit `@property def name(self): ..` / `@name.setter def name(self, v): ..` pair with the literal arguments substituted and folded
+    (f"_{name}" -> "_name", getattr(self, "_name") -> self._name).  Only literal arguments; the accessor bodies may use the parameters and
+    those locals freely."""
+    facts = {}
+    for fn in tree.body:
+        if not isinstance(fn, ast.FunctionDef) or f"{rel}:{fn.name}" in inv or fn.decorator_list or fn.args.vararg or fn.args.kwarg or fn.args.kwonlyargs:
+            continue
+        body = list(fn.body)
+        if body and isinstance(body[0], ast.Expr) and isinstance(body[0].value, ast.Constant):
+            body = body[1:]
+        locs, defs, ret = [], {}, None
+        ok = True
+        for st in body:
+            if isinstance(st, ast.Assign) and len(st.targets) == 1 and isinstance(st.targets[0], ast.Name) and _pure(st.value) and not defs:
+                locs.append((st.targets[0].id, st.value))
+            elif isinstance(st, ast.FunctionDef) and not st.decorator_list and st.args.args and st.args.args[0].arg == "self" and _basic_ok(st):
+                defs[st.name] = st
+            elif isinstance(st, ast.Return) and st is body[-1] and isinstance(st.value, ast.Call) and isinstance(st.value.func, ast.Name) and st.value.func.id == "property":
+                ret = st.value
+            else:
+                ok = False
+        if ok and ret is not None and defs:
+            facts[fn.name] = (fn, locs, defs, ret)
+    if not facts:
+        return 0
+    n = 0
+    for cls in [c for c in tree.body if isinstance(c, ast.ClassDef)]:
+        out = []
+        for st in cls.body:
+            c = st.value if isinstance(st, ast.Assign) and len(st.targets) == 1 and isinstance(st.targets[0], ast.Name) else None
+            if not (isinstance(c, ast.Call) and isinstance(c.func, ast.Name) and c.func.id in facts and all(isinstance(a, ast.Constant) for a in c.args)
+                    and all(k.arg and isinstance(k.value, ast.Constant) for k in c.keywords)):
+                out.append(st)
+                continue
+            fn, locs, defs, ret = facts[c.func.id]
+            params = [a.arg for a in fn.args.args]
+            bind = dict(zip(params, c.args))
+            bind.update({k.arg: k.value for k in c.keywords})
+            dflt = dict(zip(params[len(params) - len(fn.args.defaults):], fn.args.defaults))
+            for p_ in params:
+                if p_ not in bind and p_ in dflt and isinstance(dflt[p_], ast.Constant):
+                    bind[p_] = dflt[p_]
+            if set(params) - set(bind):
+                out.append(st)
+                continue
+
+            def inst(node):
+                m = ast.Module(body=[copy.deepcopy(node)], type_ignores=[])
+                _Subst({}, bind).visit(m)
+                _Fold().visit(m)
+                return m.body[0]
+            sub = dict(bind)
+            for nm, e in locs:
+                m = ast.Module(body=[ast.Expr(value=copy.deepcopy(e))], type_ignores=[])
+                _Subst({}, sub).visit(m)
+                _Fold().visit(m)
+                sub[nm] = m.body[0].value
+            bind = sub
+            pa = list(ret.args)
+            kw = {k.arg: k.value for k in ret.keywords}
+            fget = pa[0] if pa else kw.get("fget")
+            fset = pa[1] if len(pa) > 1 else kw.get("fset")
+            doc = pa[3] if len(pa) > 3 else kw.get("doc")
+            if not (isinstance(fget, ast.Name) and fget.id in defs) or (fset is not None and not (isinstance(fset, ast.Name) and fset.id in defs)) or len(pa) > 2 and pa[2] is not None and not (isinstance(pa[2], ast.Constant) and pa[2].value is None):
+                out.append(st)
+                continue
+            name = st.targets[0].id
+            g = inst(defs[fget.id])
+            g.name = name
+            g.decorator_list = [ast.Name(id="property", ctx=ast.Load())]
+            if doc is not None:
+                m = ast.Module(body=[ast.Expr(value=copy.deepcopy(doc))], type_ignores=[])
+                _Subst({}, bind).visit(m)
+                if isinstance(m.body[0].value, ast.Constant) and not (g.body and isinstance(g.body[0], ast.Expr) and isinstance(g.body[0].value, ast.Constant)):
+                    g.body.insert(0, m.body[0])
+            out.append(g)
+            if fset is not None:
+                s_ = inst(defs[fset.id])
+                s_.name = name
+                s_.decorator_list = [ast.Attribute(value=ast.Name(id=name, ctx=ast.Load()), attr="setter", ctx=ast.Load())]
+                out.append(s_)
+            n += 1
+        cls.body = out
+    return n
 
 
 # ------------------------------------------------------------------ record scalarisation
@@ -1260,9 +1434,34 @@ class Normalizer(ast.NodeTransformer):
             return self._while_to_for(out, fn_after_ok)
         return out
 
+    def _unroll(self, stmts, fn):
+        """N8  `for f in (a, b): body` over a literal tuple / list of at most four names or constants -> body[f:=a]; body[f:=b]
+        (the loop variable is not rebound in the body, the body has no break / continue, and f is not read after the loop)"""
+        out = []
+        for j, st in enumerate(stmts):
+            if isinstance(st, ast.For) and not st.orelse and isinstance(st.target, ast.Name) and isinstance(st.iter, (ast.Tuple, ast.List)) and 1 <= len(st.iter.elts) <= 4 \
+                    and all(isinstance(e, (ast.Name, ast.Constant)) for e in st.iter.elts) and fn is not None:
+                v = st.target.id
+                inside = {id(x) for x in ast.walk(st)}
+                bad = any((isinstance(x, ast.Name) and x.id == v and isinstance(x.ctx, (ast.Store, ast.Del)) and x is not st.target) or isinstance(x, (ast.Break, ast.Continue))
+                          for b in st.body for x in ast.walk(b))
+                used_after = any(isinstance(x, ast.Name) and x.id == v and id(x) not in inside for x in ast.walk(fn))
+                elt_names = {e.id for e in st.iter.elts if isinstance(e, ast.Name)}
+                clobber = any(isinstance(x, ast.Name) and x.id in elt_names and isinstance(x.ctx, (ast.Store, ast.Del)) for b in st.body for x in ast.walk(b))
+                if not bad and not used_after and not clobber:
+                    for e in st.iter.elts:
+                        m = ast.Module(body=copy.deepcopy(st.body), type_ignores=[])
+                        _Subst({}, {v: e}).visit(m)
+                        out += m.body
+                    self.count += 1
+                    continue
+            out.append(st)
+        return out
+
     def _post(self, blk):
         blk = self._split_assign(blk)
         fn = getattr(self, "cur_fn", None)
+        blk = self._unroll(blk, fn)
 
         def after_ok(i, w, before):
             # i must not be read anywhere in the function outside the loop, except in the statements that precede it in its own block
@@ -1376,6 +1575,17 @@ def build_inlined_tree(src_root, dst_root):
         for n in t.body:
             if isinstance(n, ast.ClassDef):
                 other[n.name] = {m for m, where in defined.items() if any(w != (rel, n.name) for w in where)}
+        npf = expand_property_factories(t, rel, inv)
+        if npf:
+            changed.add(rel)
+            report.setdefault("property_factories_expanded", {})[rel] = npf
+            for fn_ in [f for f in t.body if isinstance(f, ast.FunctionDef) and f"{rel}:{f.name}" not in inv]:
+                idx_ = t.body.index(fn_)
+                t.body.remove(fn_)
+                if _referenced(trees.values(), fn_.name):
+                    t.body.insert(idx_, fn_)
+                else:
+                    report["removed"].append(f"{rel}:{fn_.name}")
         inl = Inliner(rel, t, inv, other)
         recs = record_classes(t, rel, inv)
         has_closures = any(Inliner._direct_nested(fn_) for fn_, _o in inl.funcs.values())
@@ -1453,6 +1663,32 @@ def build_inlined_tree(src_root, dst_root):
                         t.body.insert(0, t.body.pop(1))
                 changed.add(rel)
                 report.setdefault("constants_folded", []).append(f"{rel}:{name}")
+    # module-level `name = functools.partial(f, a.., k=v..)` that is not part of the reference tree: calls `name(b.., k2=..)` -> `f(a.., b.., k=v.., k2=..)`
+    for rel, t in trees.items():
+        for n in list(t.body):
+            if not (isinstance(n, ast.Assign) and len(n.targets) == 1 and isinstance(n.targets[0], ast.Name) and f"{rel}:const {n.targets[0].id}" not in inv
+                    and isinstance(n.value, ast.Call) and ast.unparse(n.value.func) in ("partial", "functools.partial") and n.value.args
+                    and isinstance(n.value.args[0], (ast.Name, ast.Attribute)) and not any(isinstance(a, ast.Starred) for a in n.value.args)
+                    and all(k.arg for k in n.value.keywords) and all(_pure(a) for a in n.value.args[1:]) and all(_pure(k.value) for k in n.value.keywords)):
+                continue
+            name = n.targets[0].id
+            stores = [x for x in ast.walk(t) if isinstance(x, ast.Name) and x.id == name and isinstance(x.ctx, (ast.Store, ast.Del))]
+            if len(stores) != 1 or any(isinstance(x, ast.arg) and x.arg == name for x in ast.walk(t)):
+                continue
+            pk = {k.arg for k in n.value.keywords}
+            calls = [c for c in ast.walk(t) if isinstance(c, ast.Call) and isinstance(c.func, ast.Name) and c.func.id == name]
+            if not calls or any(({k.arg for k in c.keywords} & pk) or any(k.arg is None for k in c.keywords) for c in calls):
+                continue
+            for c in calls:
+                c.func = copy.deepcopy(n.value.args[0])
+                c.args = [copy.deepcopy(a) for a in n.value.args[1:]] + list(c.args)
+                c.keywords = [copy.deepcopy(k) for k in n.value.keywords] + list(c.keywords)
+            idx = t.body.index(n)
+            t.body.remove(n)
+            if _referenced(trees.values(), name):
+                t.body.insert(idx, n)
+            changed.add(rel)
+            report.setdefault("partials_folded", []).append(f"{rel}:{name}")
     report["normalised"] = {}
     for rel, t in trees.items():
         nz = Normalizer()
